@@ -31,7 +31,8 @@ def main(ctx, args):
         "bytecodegen, wasmgen, wasmtime are exercised, not modelled",
         "corpus stream: every .mmm under lib/, examples/, mimium-test/tests/mmm that both backends accept with a dsp, plus token-level mutants (constant tweaks, operator swaps; constants next to `%` and zero are not injected: findings G4, G5)",
         "generated programs: profiles `scalar*`, `nolam` (tuples, nested patterns, records, tuple-valued self) and `records`; "
-        "lambdas are excluded from the C01 stream because the pinned back ends have listed defects there (WASM: G2, F11; VM: G3)",
+        "closures are in the stream (profiles core, closure_assign, nested, nested_assign: lambdas inside lambdas, inner closures escaping the middle one); "
+        "stateful lambdas are not generated (listed: F11)",
     ]
     known = load_known("C01")
     if not extract(ctx):
